@@ -29,6 +29,7 @@ def run(tier, seed):
                                            "as_graph": True, "nflags": n, "patterns": pats, "expects": r["notseg"]})
     names = {"notadj": "active_vertices_not_adjacent", "notseg": "active_vertices_not_adjacent_and_not_segmenting"}
     run_family(chk, jobs, lambda j: names[j["family"]])
+    large_patterns(chk, tier, seed, names)
     chk.sample({"obj": recs[-1]["obj"], "notseg": recs[-1]["notseg"][:16]})
     chk.rule = "case = (graph or grid, helper, form, activity pattern); non-trivial = at least 2 active vertices"
     chk.exhaustive = True
@@ -36,6 +37,92 @@ def run(tier, seed):
     chk.extra["objects"] = len(recs)
     chk.assumptions = ["decided by the real z3 path; grid specialisation and explicit-graph form compared through the definition"]
     return chk.finish()
+
+
+def chains(rng, h, w, n):
+    """seeded long diagonal chains of active cells (no two orthogonally adjacent, each new cell diagonal to exactly one
+    earlier cell): a long open chain that starts at the border and curls through the interior is what the rank range of
+    the grid specialisation has to accommodate; chains that touch the border twice or close up are segmenting"""
+    import sys
+    sys.setrecursionlimit(10000)
+    out = []
+    for k in range(n):
+        start = rng.choice([(0, x) for x in range(w)] + [(y, 0) for y in range(h)])
+        best = []
+        budget = [4000]
+
+        def ok(c, used, interior_only):
+            y, x = c
+            if not (0 <= y < h and 0 <= x < w) or c in used:
+                return False
+            if interior_only and not (0 < y < h - 1 and 0 < x < w - 1):
+                return False
+            if any((y + dy, x + dx) in used for dy, dx in ((1, 0), (-1, 0), (0, 1), (0, -1))):
+                return False
+            return sum(1 for dy in (-1, 1) for dx in (-1, 1) if (y + dy, x + dx) in used) == 1
+
+        def dfs(chain, used):
+            nonlocal best
+            budget[0] -= 1
+            if len(chain) > len(best):
+                best = list(chain)
+            if budget[0] <= 0:
+                return
+            y, x = chain[-1]
+            cand = [(y + dy, x + dx) for dy in (-1, 1) for dx in (-1, 1) if ok((y + dy, x + dx), used, True)]
+            rng.shuffle(cand)
+            for c in cand:
+                chain.append(c)
+                used.add(c)
+                dfs(chain, used)
+                used.discard(c)
+                chain.pop()
+                if budget[0] <= 0:
+                    return
+        dfs([start], {start})
+        cells = sorted(y * w + x for (y, x) in best)
+        out.append(cells)
+        if k % 2 == 0 and len(best) > 3:          # the same chain extended by a cell on the border (if any fits): segmenting
+            y, x = best[-1]
+            used = set(best)
+            extra = [(y + dy, x + dx) for dy in (-1, 1) for dx in (-1, 1) if ok((y + dy, x + dx), used, False)]
+            if extra:
+                e = rng.choice(extra)
+                out.append(sorted(cells + [e[0] * w + e[1]]))
+    return out
+
+
+def large_patterns(chk, tier, seed, names):
+    import random
+    from harness.common import write_ndjson
+    from harness.tlc import run_tlc, MachineryError
+    from harness import graph_replay as GR
+    rng = random.Random(seed + 808)
+    recs = []
+    shapes = [(7, 7), (7, 8)] if tier == "quick" else [(7, 7), (7, 8), (8, 7), (8, 8), (9, 9), (6, 10)]
+    for (h, w) in shapes:
+        for act in chains(rng, h, w, 4 if tier == "quick" else 30):
+            recs.append({"t": len(recs), "h": h, "w": w, "active": act})
+    path = chk.dir / "patterns.ndjson"
+    write_ndjson(path, recs)
+    res = run_tlc("Trace_Patterns", "Trace_Patterns", workdir=chk.dir, env={"TRACE_FILE": str(path)}, timeout=3000, workers=4)
+    chk.add_tlc(res)
+    if len(res.records) != len(recs):
+        raise MachineryError("Trace_Patterns verdict count")
+    verdict = {v["t"]: v for v in res.records}
+    jobs = []
+    for r in recs:
+        h, w = r["h"], r["w"]
+        n = h * w
+        p = sum(1 << c for c in r["active"])
+        obj = {"kind": "grid", "name": "grid", "h": h, "w": w, "graph": {"n": n, "edges": [[y * w + x, y * w + x + 1] for y in range(h) for x in range(w - 1)] + [[y * w + x, (y + 1) * w + x] for y in range(h - 1) for x in range(w)]}}
+        for as_graph in (False, True):
+            jobs.append({"family": "notseg", "obj": obj, "id": 100000 + r["t"], "form": "array" if as_graph else "vars", "as_graph": as_graph,
+                         "nflags": n, "patterns": [p], "expects": [verdict[r["t"]]["notseg"]]})
+    run_family(chk, jobs, lambda j: names[j["family"]])
+    chk.traces += len(recs)
+    chk.extra["large_grid_chain_patterns"] = len(recs)
+    chk.extra["longest_chain"] = max(len(r["active"]) for r in recs)
 
 
 def replay(path):
